@@ -38,8 +38,12 @@ type TailPlan struct {
 	// Instances: number of independent TailBitmaps alive in the run (several
 	// windows in one process); producer i feeds instance i % Instances. Each has
 	// its own reference model: one instance must never affect another.
-	Instances int             `json:"instances,omitempty"`
-	Sched     engine.Schedule `json:"sched"`
+	Instances int `json:"instances,omitempty"`
+	// Far > 0: after the deliveries, one more Set lands Far bits beyond the
+	// initial offset (>= 2^31: a stored tail longer than an int32 can index;
+	// about 256 MiB of words), followed by probes there.
+	Far   int64           `json:"far,omitempty"`
+	Sched engine.Schedule `json:"sched"`
 }
 
 type TailProducer struct {
@@ -146,6 +150,11 @@ func (Tail) Generate(seed uint64, tier string) engine.Plan {
 	p.Instances = r.PickInt(1, 1, 1, 2, 2, 3)
 	if big {
 		p.Instances = 1
+	}
+	if !big && r.Chance(1, 500) {
+		p.Far = 1<<31 + r.PickInt64(0, 5, 197, 64*3+1, 1<<20)
+		p.Instances = 1
+		p.Threshold = 0
 	}
 	p.Sched = genSchedule(r, np+1)
 	return p
@@ -523,20 +532,76 @@ func (Tail) Execute(pl engine.Plan, c *engine.RunCtx) *engine.Failure {
 	if fail != nil {
 		return fail
 	}
-	// ---- end of run: full sweep
+	// ---- the far Set (a tail longer than 2^31 bits)
+	if p.Far > 0 {
+		use(0)
+		far := o + p.Far
+		step := deliveries + 1
+		for _, id := range []int64{far, far - 1, far + 64, far} {
+			c.Status.SetStep(uint64(step), 1)
+			if !guard(step, func() string { return fmt.Sprintf("Set(%d)", id) }, func() { tb.Set(id) }) {
+				return fail
+			}
+			c.Status.SetStep(uint64(step), 0)
+			c.LibCalls++
+			S[id] = struct{}{}
+			if id > maxS {
+				maxS = id
+			}
+			c.Ev(len(p.Producers), "set.far", id, tb.Offset, int64(len(tb.Words)))
+			if f := checkAfter(step, func() string { return fmt.Sprintf("Set(%d) [far]", id) }, true, id); f != nil {
+				return f
+			}
+			for _, j := range []int64{id - 65, id - 64, id - 1, id, id + 1, far - 2, far + 63, far + 65, o + 1<<31 - 1, o + 1<<31, o + 1<<30} {
+				if f := probeOne(step, j); f != nil {
+					return f
+				}
+			}
+		}
+		st.Inc("probe.C15.tail_longer_than_2^31_bits")
+	}
+	// ---- end of run: full sweep (bounded when the tail is huge: the first 2^17
+	// positions, the neighbourhood of every bit ever set, the last 2^12)
 	lo := o - 128
 	if lo < 0 {
 		lo = 0
 	}
 	for k := 0; k < nInst; k++ {
 		use(k)
-		for j := lo; j < end(); j++ {
-			if f := probeOne(deliveries+1, j); f != nil {
-				if nInst > 1 {
-					f.Detail = fmt.Sprintf("instance %d: %s", k, f.Detail)
+		sweep := func(a, b int64) *engine.Failure {
+			for j := a; j < b; j++ {
+				if f := probeOne(deliveries+1, j); f != nil {
+					if nInst > 1 {
+						f.Detail = fmt.Sprintf("instance %d: %s", k, f.Detail)
+					}
+					return f
 				}
+			}
+			return nil
+		}
+		if end()-lo <= 1<<21 {
+			if f := sweep(lo, end()); f != nil {
 				return f
 			}
+			continue
+		}
+		if f := sweep(lo, lo+1<<17); f != nil {
+			return f
+		}
+		ids := make([]int64, 0, len(S))
+		for id := range S {
+			ids = append(ids, id)
+		}
+		sort.Slice(ids, func(i, j int) bool { return ids[i] < ids[j] })
+		for _, id := range ids {
+			if id >= lo+1<<17 {
+				if f := sweep(id-70, id+70); f != nil {
+					return f
+				}
+			}
+		}
+		if f := sweep(end()-1<<12, end()); f != nil {
+			return f
 		}
 	}
 	if firstHole-o >= 65536 && p.Threshold == 0 {
@@ -571,6 +636,7 @@ func (Tail) Shrink(pl engine.Plan) []engine.Plan {
 	}
 	for _, f := range []func(q *TailPlan) bool{
 		func(q *TailPlan) bool { ok := q.Instances > 1; q.Instances = 1; return ok },
+		func(q *TailPlan) bool { ok := q.Far > 0; q.Far = 0; return ok },
 		func(q *TailPlan) bool { ok := q.DupDen != 0; q.DupDen = 0; return ok },
 		func(q *TailPlan) bool { ok := q.DropDen != 0; q.DropDen = 0; return ok },
 		func(q *TailPlan) bool { ok := q.Window != 0; q.Window = 0; return ok },
